@@ -33,8 +33,13 @@ augment phase from is `Built.init`).  The other steps the augment loop takes are
 bridge: an error recorded on a root never disappears, so it is absent on an error-free run; a tree stored
 back unchanged changes nothing; an rpc input / output created by `Find` is moved back through every
 earlier graft and `FixChoice` to the conversion (Lemmas/ConfigNsComm.lean, Lemmas/ConfigNsBuilt.lean).
-With deviations: Props/C12Bridge.lean `processAll_provenance` / `processAll_namespace_readOnly` (class
-`BuiltX`: `Built'` without error recording plus the two steps of the deviation stage).
+With deviations: Props/C12Bridge.lean `processAll_built_with_deviations` /
+`processAll_namespace_readOnly_literal` — the forest of every error-free run is `BuiltD`: `Built` plus the
+three steps of the deviation stage, each with its provenance clause (an rpc input / output created by the
+path lookup of a deviation is placed by the placer of the rpc; a deviated node keeps its placer; a removed
+one has none), no `congr` and no error-recording step; (`processAll_provenance` /
+`processAll_namespace_readOnly` are the earlier versions for the wider class `BuiltX`).  Kernel-evaluated
+module sets with augment and deviations: C12Bridge `ExDev`, `ExCorner`.
 -/
 namespace Goyang.Props.C12
 open Goyang.Model
